@@ -41,6 +41,7 @@ SameFamilies(ex, ob) == Len(ex) = Len(ob) /\ \A k \in 1..Len(ex) : SameFamily(ex
 Unrepresentable(gm, v) == CASE gm = "time" -> v[2] = 0
                             [] gm = "length" -> v[2] = 0
                             [] gm = "position" -> v[2][2] = 0 \/ v[4][2] = 0
+                            [] gm \in {"frate", "trate", "cellres", "fmult", "aspect", "dar"} -> v[1] = -1
                             [] OTHER -> FALSE
 SameValue(gm, ex, rec) == IF Unrepresentable(gm, ex) THEN TRUE
                           ELSE IF rec.big = 1 THEN FALSE
